@@ -357,8 +357,20 @@ func c12Run(rc *sim.RunCtx) {
 	}
 	if negative == 2 {
 		k := t.Draw(n)
-		sources[mods[k].name] = strings.Replace(sources[mods[k].name], "rec.mop(", "zz := import(\"nosuchmodule\")\nrec.mop(", 1)
-		badDesc = fmt.Sprintf("module %d imports an unknown module", k)
+		// a name nobody registered - or the name of a registered source module with a suffix or in another case
+		unknown := "nosuchmodule"
+		var srcMods []string
+		for _, m := range mods {
+			if !m.file {
+				srcMods = append(srcMods, m.name)
+			}
+		}
+		if len(srcMods) > 0 && t.Bool(1, 2) {
+			base := srcMods[t.Draw(len(srcMods))]
+			unknown = []string{base + ".ugo", "./" + base, strings.ToUpper(base), base + "/", base + " "}[t.Draw(5)]
+		}
+		sources[mods[k].name] = strings.Replace(sources[mods[k].name], "rec.mop(", "zz := import(\""+unknown+"\")\nrec.mop(", 1)
+		badDesc = fmt.Sprintf("module %d imports the unknown module %q", k, unknown)
 	}
 	_ = 0
 	steps := 4 + t.Draw(27)
